@@ -45,6 +45,7 @@ trace = base.trace
 
 def specs():
     out = base.specs(True)
+    out['S6'] = dict(base.ORDER_SPEC)
     out['S5'] = dict(dest='dtn://dst/svc', payload=b'x', crc=2, blocks=[dict(type=7, num=2, crc=0, data=cbor2.dumps(77))])
     return out
 
@@ -67,6 +68,7 @@ def built_cases():
         ({0: 1, -1: 1, -2: 1}, b'', [1], 'S3'),
         ({0: 1, -1: 1, 4: 3}, b'', [2], 'S1'),          # target = extension block; block 4 metadata + BTSD in scope
         ({0: 1, -1: 1}, b'', [1, 2], 'S1'),             # two targets, two IVs
+        ({0: 1, -1: 1, 2: 1, 4: 2}, b'', [1], 'S1'),    # other blocks: metadata only / data only (with 4:3 above: flags 1, 2, 3)
     ]
 
 
@@ -98,6 +100,23 @@ def make_wires(quick):
                                        addl_protected=addl, ivs=IVS)
         wires.append(dict(id='built:%d:%s' % (idx, spec_name), profile='enc0-a128gcm', extra=None, wire=wire,
                           payload=all_specs[spec_name]['payload'], source='built', scope=scope, targets=targets))
+    # source agents with two or three confidentiality associations in every order of their targets
+    import itertools
+    for (prof_name, sizes) in (('enc0-a128gcm', (2, 3)), ('enc-kw-a256gcm', (3,))):
+        prof = sd.PROFILES[prof_name]
+        for size in sizes:
+            for order in itertools.permutations((1, 7, 10), size):
+                node = sd.SecNode(sd.SRC_ID)
+                key = node.add_sym_key(sd.profile_key(prof))
+                for (pos, btype) in enumerate(order):
+                    node.add_policy('bcb', key.kid, (btype,), content_alg=prof.get('content_alg'), content_key=prof.get('content_key'),
+                                    content_iv=[IVS[pos]])
+                wire = node.send(all_specs['S6'])
+                name = '-'.join({1: 'payload', 7: 'age', 10: 'hop'}[btype] for btype in order)
+                wires.append(dict(id='agent:%s:S6:order-%s' % (prof_name, name), profile=prof_name, extra=None, wire=wire,
+                                  payload=all_specs['S6']['payload'], source='agent', scope={0: 1, -1: 1},
+                                  targets=[base.ORDER_NUM[btype] for btype in order],
+                                  sweep=(prof_name == 'enc0-a128gcm' and order == (10, 1, 7))))
     # two and three SEPARATE BCBs from different security sources over different targets (source BCB over an
     # extension block, gateway BCBs over the payload and another extension block), acceptance on and off
     layers = [('enc0-a128gcm', 'enc0', [2], None, b'IvIvIvIvIv01'), ('enc0-a256gcm', 'enc0', [1], [1, '//gw1/'], b'IvIvIvIvIv02'),
@@ -260,6 +279,42 @@ def oracle(suite, ent, case, cls, out, replay):
 
 # --------------------------------------------------------------------------- baseline
 
+def check_pairing(suite, ent, replay):
+    ''' Independent check on the wire: result i of every BCB decrypts target i to its original plaintext (AAD and
+    Enc_structure recomputed by the independent source, AES-GCM / AES-KW from `cryptography`, key by KID). '''
+    from cryptography.hazmat.primitives.ciphers.aead import AESGCM
+    from cryptography.hazmat.primitives.keywrap import aes_key_unwrap
+    chk = suite.chk
+    items = [it for (it, _r, _o) in sd.split_bundle(ent['wire'])]
+    for blk in items[1:]:
+        if blk[0] != SEC_TYPE:
+            continue
+        asb = sd.asb_decode(blk[4])
+        (addl, _un, scope) = sd.sec_params(asb)
+        for (ix, tnum) in enumerate(asb['targets']):
+            good = False
+            try:
+                (code, val) = asb['results'][ix][0]
+                msg = cbor2.loads(val)
+                if code == 16:
+                    key = base.key_by_kid(msg[1][4])['key'][1]
+                    ctx = 'Encrypt0'
+                else:
+                    rcp = msg[3][0]
+                    key = aes_key_unwrap(base.key_by_kid(rcp[1][4])['key'][1], rcp[2])
+                    ctx = 'Encrypt'
+                tgt = [b for b in items[1:] if b[1] == tnum][0]
+                aad = sd.py_external_aad(items, blk[:3], asb['source'], scope, addl, tnum)
+                good = AESGCM(key).decrypt(msg[1][5], tgt[4], cbor2.dumps([ctx, msg[0], aad])) == ent['plain'][tnum]
+            except Exception:
+                good = False
+            suite.count('pairing_checked', 'ok' if good else 'MISMATCH')
+            if not good:
+                chk.fail(signature='C16 / BCB result i does not decrypt target i',
+                         what='%s: BCB %d lists targets %r but result %d does not decrypt block %d to its plaintext' % (
+                             ent['id'], blk[1], asb['targets'], ix, tnum), replay_obj=replay)
+
+
 def all_targets_recovered(node, ent):
     ''' at an acceptor every target block holds exactly its original plaintext after the receive chain; at a
     verify-only node every target still holds the octets received '''
@@ -302,6 +357,8 @@ def suite_baseline(suite, wires):
                 chk.fail(signature='C16 / target data on the wire is not ciphertext',
                          what='%s block %d: wire BTSD %s for plaintext %s' % (ent['id'], tnum, on_wire.hex()[:80], plain.hex()[:80]), replay_obj=replay)
             suite.count('plaintext_len', len(plain))
+        check_pairing(suite, ent, replay)
+        suite.count('bcb_target_order', '>'.join(str(t) for t in ent['targets']))
         good = sd.receiver_from_spec(base.recv_spec(ent))
         out = good.recv(ent['wire'])
         vd = good.verify_direct(ent['wire'])
@@ -437,7 +494,7 @@ def main():
         print('PENDING-FINDING (gated, reported to the coordinator): %s  [%d input(s); first: %s]' % (sig, info['count'], info['what'][:300]))
     chk.finish(
         rule=('for each of %d bundles (BCB applied by the real agent: Encrypt0 A128GCM/A256GCM direct key, Encrypt + AES-KW A128/A256, one with a '
-              'BIB as well, BCBs with two and three targets in both key modes with accept_after_verify on and off, two / three separate BCBs from different security sources over different targets (each key wrong in turn); plaintext lengths 0, 1, 11, 24, 300; or by the independent source with 7 AAD scopes / targets incl. two targets): '
+              'BIB as well, BCBs with two and three targets in both key modes with accept_after_verify on and off, two / three separate BCBs from different security sources over different targets (each key wrong in turn), source agents with 2-3 confidentiality associations in every order of their targets with an independent target-result pairing check; plaintext lengths 0, 1, 11, 24, 300; or by the independent source with 7 AAD scopes / targets incl. two targets): '
               'wire BTSD is ciphertext (plaintext length + 16, not containing the plaintext), accepted BTSD == plaintext, wrong key fails and '
               'releases nothing; then every single-field alteration (cbor2 decode, one item changed/dropped/added, CRCs re-fixed, EID-syntax '
               'variants with and without CRC re-fix) and %s single-bit flips, through the real receive path and verify_bcb; distinct = '
